@@ -296,6 +296,9 @@ class SelectorWorld:
         m = self.meta[name]
         if obj is None or m["retired"]:
             return
+        if self.pid == "C08" and m.get("c08_threshold_reached") and not op.get("expect"):
+            self.count("out_of_domain_after_threshold_stop")
+            return
         if op.get("warm") and m.get("retired_for_warm") and not op.get("expect"):
             # the state left by a failed/interrupted fit is unspecified (DESIGN 5.4); after a
             # reported length inconsistency a continuation only repeats that report
@@ -390,6 +393,11 @@ class SelectorWorld:
             self.probe("threshold_stop")
             if warm:
                 self.probe("threshold_stop_inside_warm_fit")
+            if self.pid == "C08":
+                # C08 quantifies over thresholds that are *not* reached; whether this stop is
+                # itself legitimate is decided by comparing this fit with its cold twin below,
+                # but nothing after it belongs to the property's domain
+                m["c08_threshold_reached"] = True
         self.after_ok_fit(name, obj, m, op, rec, X, y, n_before)
 
     # ---- per-property oracles
@@ -426,11 +434,19 @@ class SelectorWorld:
                     ),
                 )
         elif self.pid == "C08":
+            if m.get("c08_threshold_reached"):
+                self.count("out_of_domain_after_threshold_stop")
+                return
             if op.get("expect") == "reject":
                 if isinstance(e, ValueError):
                     self.probe("warm_start_on_unfitted_rejected")
                 else:
                     self.violate("warm_unfitted_wrong_error", cls, f"{type(e).__name__}: {e}")
+                return
+            if op.get("warm") and m["ok_fits"] == 0:
+                # warm start of a never-fitted selector: rejecting it is what C08 demands
+                if isinstance(e, ValueError):
+                    self.probe("warm_start_on_unfitted_rejected")
                 return
             # a chain that raises where the cold twin succeeds is a violation
             tw = self.twin_fit(name, m, op)
@@ -757,7 +773,9 @@ class SelectorWorld:
                     ref = FPSReference(self.heap.pristine(xa))
                     for j in a[:k]:
                         ref.add(j)
-                    if k < min(len(a), len(b)) and (ref.is_tie() or k == 0 and False):
+                    # the first selection is the requested index or the reproducible draw of
+                    # an integer random_state: it can never legitimately depend on the clock
+                    if 0 < k < min(len(a), len(b)) and ref.is_tie():
                         self.count("lane_pairs_differ_at_tie")
                         continue
                     self.violate(
@@ -874,6 +892,11 @@ class SelectorWorld:
             if rank < need or p.get("recompute_every", 1) not in (0, 1):
                 self.count("out_of_domain_rank_or_refresh")
                 return
+            # (iii) the scores of the very first step must be well defined as well: the
+            # k-th and (k+1)-th value of the initial matrix must not coincide
+            if self._degenerate_initial(Xp, yp, p, fam, axis):
+                self.count("degenerate_spectrum_skipped")
+                return
         tw = self.twin_fit(name, m, op)
         if tw["exc"] is not None:
             self.count("twin_raised")
@@ -982,6 +1005,20 @@ class SelectorWorld:
                 V("prefix_depends_on_request", f"cold fit with {len(b)} selects {b}, cold fit with {len(fin)} selects {fin}")
         elif fin is not None:
             self.count("prefix_checked")
+
+    def _degenerate_initial(self, Xp, yp, p, fam, axis):
+        try:
+            k = int(p.get("k", 1))
+            if fam == "cur":
+                gap, _ = spectrum_gap(Xp, k, symmetric=False)
+            else:
+                Y = np.asarray(yp, dtype=float).reshape(Xp.shape[0], -1)
+                mix = p.get("mixing", 0.5)
+                M = ref_pcovr_kernel(mix, Xp, Y) if axis == 0 else ref_pcovr_covariance(mix, Xp, Y)
+                gap, _ = spectrum_gap(M, k, symmetric=True)
+            return gap < 1e-6
+        except Exception:  # noqa: BLE001
+            return True
 
     def _degenerate(self, t, p, fam, axis):
         """CUR-family scores are arbitrary when the k-th and (k+1)-th value coincide."""
